@@ -120,7 +120,46 @@ def ranges(g, n):
     return g.r.choice([["full"], ["from", a], ["to", b], ["fromto", a, b], ["toincl", b], ["fromtoincl", a, b]])
 
 
+def tournament_edges(g, n, shuffle=True):
+    """unions in tournament (balanced) order: builds union-find trees of depth log2(n)"""
+    s, t = [], []
+    step = 1
+    ids = list(range(n))
+    if shuffle:
+        g.r.shuffle(ids)
+    while step < n:
+        for i in range(0, n - step, 2 * step):
+            a, b = ids[i + step], ids[i]
+            if g.r.random() < 0.5:
+                a, b = b, a
+            # link the LAST element of each block so that roots get linked to roots of equal rank
+            s.append(ids[min(i + 2 * step, n) - 1])
+            t.append(ids[i + step - 1])
+        step *= 2
+    return s, t
+
+
+def deep_cc_cases(g, k):
+    for _ in range(k):
+        n = g.r.choice([32, 33, 48, 64, 64, 100, 128])
+        s, t = tournament_edges(g, n, shuffle=g.r.random() < 0.7)
+        if g.r.random() < 0.5:
+            # higher id first (the order that makes naive pointer structures deep)
+            s, t = zip(*[(max(a, b), min(a, b)) for a, b in zip(s, t)])
+            s, t = list(s), list(t)
+        extra = g.r.randint(0, 5)
+        s += g.nats(extra, n - 1)
+        t += g.nats(extra, n - 1)
+        yield s, t, n
+
+
 def C07(g, tier):
+    for s2, t2, n2 in deep_cc_cases(g, N(tier, 12, 120)):
+        yield sx(["a_cc", "vec", s2, t2, n2]), True
+        yield sx(["a_cc", "adv", s2, t2, n2]), True
+        yield sx(["a_cc_uf", s2, t2, n2]), True
+        f, h = [s2, n2], [t2, n2]
+        yield sx(["ff_coequalizer", "vec", f, h]), True
     # exhaustive: all arrays of length <= 3 over {0,1,2} for the order-sensitive primitives
     for n in range(4):
         for xs in itertools.product(range(3), repeat=n):
@@ -380,6 +419,47 @@ def C01(g, tier):
             idw = [[list(range(k)), k], [list(range(k)), k], [[[[], 1], [[], k]], [[[], 1], [[], k]], wrong, []]]
             yield sx(["ohg_compose", bk, f, idw]), k > 0
             yield sx(["ohg_compose", bk, idw, g.ohg_with_source(wrong) if g.r.random() < 0.5 else f]), k > 0
+    # large boundaries: many identifications collapsing into few classes (deep union-find trees)
+    for s2, t2, n2 in deep_cc_cases(g, N(tier, 6, 60)):
+        half = n2 // 2
+        w = [0] * half
+        legs_t = [x % half for x in s2]
+        legs_s = [x % half for x in t2]
+        f = [[g.nats(2, half - 1), half], [legs_t, half], [[[[], 1], [[], half]], [[[], 1], [[], half]], w, []]]
+        h = [[legs_s, half], [g.nats(2, half - 1), half], [[[[], 1], [[], half]], [[[], 1], [[], half]], w, []]]
+        for bk in BACKENDS:
+            yield sx(["ohg_compose", bk, f, h]), True
+        # 16+16 nodes glued along a tournament of legs: t-leg into f's nodes, s-leg into h's nodes
+        lt = [x for x in s2 if x < half] + [x - half for x in t2 if x >= half]
+        ls = [x for x in t2 if x < half] + [x - half for x in s2 if x >= half]
+        m = min(len(lt), len(ls))
+        f2 = [[[0], half], [lt[:m], half], [[[[], 1], [[], half]], [[[], 1], [[], half]], w, []]]
+        h2 = [[ls[:m], half], [[0], half], [[[[], 1], [[], half]], [[[], 1], [[], half]], w, []]]
+        for bk in BACKENDS:
+            yield sx(["ohg_compose", bk, f2, h2]), True
+    # f-node i ~ g-node i for all i, then a tournament (a, a+d): all 2*half nodes collapse through a
+    # balanced merge order (union-find trees of depth log2(2*half))
+    for _ in range(N(tier, 6, 40)):
+        half = g.r.choice([16, 16, 32, 64])
+        ft, gs = list(range(half)), list(range(half))
+        d = 1
+        while d < half:
+            for a in range(0, half, 2 * d):
+                if a + d < half:
+                    if g.r.random() < 0.9:
+                        ft.append(a)
+                        gs.append(a + d)
+            d *= 2
+        if g.r.random() < 0.3:
+            perm = list(range(half))
+            g.r.shuffle(perm)
+            ft = [perm[x] for x in ft]
+            gs = [perm[x] for x in gs]
+        w = [0] * half
+        f3 = [[list(range(half)), half], [ft, half], [[[[], 1], [[], half]], [[[], 1], [[], half]], w, []]]
+        h3 = [[gs, half], [list(range(half)), half], [[[[], 1], [[], half]], [[[], 1], [[], half]], w, []]]
+        for bk in BACKENDS:
+            yield sx(["ohg_compose", bk, f3, h3]), True
     # chains collapsing many nodes into one: spiders with non-injective legs
     for _ in range(N(tier, 150, 1500)):
         n = g.r.randint(1, 4)
@@ -412,8 +492,35 @@ def C02(g, tier):
         yield sx(["law", "vec", ["ltens", ["l", lf], ["l", lempty]], ["l", lf]]), lnt
 
 
+def tournament_pair(g, half):
+    ft, gs = list(range(half)), list(range(half))
+    d = 1
+    while d < half:
+        for a in range(0, half, 2 * d):
+            if a + d < half and g.r.random() < 0.9:
+                ft.append(a)
+                gs.append(a + d)
+        d *= 2
+    if g.r.random() < 0.4:
+        perm = list(range(half))
+        g.r.shuffle(perm)
+        ft = [perm[x] for x in ft]
+        gs = [perm[x] for x in gs]
+    w = [0] * half
+    disc = [[[[], 1], [[], half]], [[[], 1], [[], half]], w, []]
+    return ([[list(range(half)), half], [ft, half], disc], [[gs, half], [list(range(half)), half], disc])
+
+
 def C03(g, tier):
     S = lambda f: ["s", f]
+    for _ in range(N(tier, 6, 40)):
+        half = g.r.choice([8, 12, 16, 32])
+        f3, h3 = tournament_pair(g, half)
+        k3 = [[list(range(half)), half], [g.nats(2, half - 1), half], f3[2]]
+        bk = g.r.choice(BACKENDS)
+        yield sx(["law", bk, ["scomp", ["scomp", S(f3), S(h3)], S(k3)], ["scomp", S(f3), ["scomp", S(h3), S(k3)]]]), True
+        yield sx(["law", bk, ["scomp", S(f3), ["sid", [0] * len(f3[1][0])]], S(f3)]), True
+        yield sx(["law", bk, ["sdag", ["scomp", S(f3), S(h3)]], ["scomp", ["sdag", S(h3)], ["sdag", S(f3)]]]), True
     for f, h in small_pairs(g, N(tier, 600, 20000)):
         bk = g.r.choice(BACKENDS)
         _, tt = ohg_types(h)
@@ -456,6 +563,16 @@ def C03(g, tier):
                       ["stens", ["scomp", S(f), S(sp)], ["scomp", S(f2), S(h2)]]]), len(set(leg)) < kk
         # self-inverse and hexagons
         x, y, z = g.nats(g.size(3), 1), g.nats(g.size(3), 1), g.nats(g.size(3), 1)
+        if g.r.random() < 0.04:
+            # associativity with large boundaries (many identifications, order-dependent union-find shapes)
+            n = g.r.choice([12, 16, 24])
+            w = [0] * n
+            disc = lambda s_, t_: [[s_, n], [t_, n], [[[[], 1], [[], n]], [[[], 1], [[], n]], w, []]]
+            k1, k2 = g.r.randint(n, 2 * n), g.r.randint(n, 2 * n)
+            a1, a2 = g.nats(k1, n - 1), g.nats(k1, n - 1)
+            b1, b2 = g.nats(k2, n - 1), g.nats(k2, n - 1)
+            F, G, H = disc(g.nats(2, n - 1), a1), disc(a2, b1), disc(b2, g.nats(2, n - 1))
+            yield sx(["law", bk, ["scomp", ["scomp", S(F), S(G)], S(H)], ["scomp", S(F), ["scomp", S(G), S(H)]]]), True
         yield sx(["law", bk, ["scomp", ["stwist", x, y], ["stwist", y, x]], ["sid", x + y]]), len(x) > 0 and len(y) > 0
         yield sx(["law", bk, ["stwist", x, y + z],
                   ["scomp", ["stens", ["stwist", x, y], ["sid", z]], ["stens", ["sid", y], ["stwist", x, z]]]]), len(x) > 0 and len(y) + len(z) > 0
@@ -568,6 +685,9 @@ def C05(g, tier):
             Pq = otable(g)
             yield sx(["term", "vec", ["optic", Pq, ["l", lq]]]), True
             yield sx(["term", "vec", ["optic_adapted", Pq, ["l", lq]]]), True
+        # imperative edits of lax diagrams (every reached state must stay well formed)
+        if g.r.random() < 0.3:
+            yield sx(["lax_history", LEMPTY if g.r.random() < 0.6 else g.lohg(), history(g, g.r.randint(3, 10))]), True
         # coequalize_vertices with a surjection
         nn = len(f[2][2])
         if nn:
@@ -606,6 +726,11 @@ def history(g, n, allow_bad=True):
             nn += 1
         elif k < 0.73 and (nn or bad):
             ids = g.nats(g.size(3), nn if bad else nn - 1) if nn else ([0] if bad else [])
+            if ids and g.r.random() < 0.35:
+                ids = ids + [g.r.choice(ids)]          # a repeated identifier
+            if nn and g.r.random() < 0.5:               # make sure interfaces are present when nodes are deleted
+                cmds.append(["set_sources", g.nats(g.r.randint(1, 3), nn - 1)])
+                cmds.append(["set_targets", g.nats(g.r.randint(1, 3), nn - 1)])
             which = g.r.choice(["delete_nodes", "delete_nodes", "h_delete_nodes_witness", "h_delete_nodes"])
             cmds.append([which, ids])
             if not (ids and max(ids) >= nn):
@@ -662,6 +787,12 @@ def C11(g, tier):
 
 
 def C09(g, tier):
+    for s2, t2, n2 in deep_cc_cases(g, N(tier, 8, 80)):
+        lab = g.r.choice([1, 1, 2])
+        nodes = [0] * n2 if lab == 1 else [g.nat(1) for _ in range(n2)]
+        f = [[0, n2 - 1], [n2 // 2], [nodes, [0], [[[0, 1], [n2 - 1]]], [s2, t2]]]
+        yield sx(["lohg_quotient", f]), True
+        yield sx(["lhg_quotient", f[2]]), True
     for _ in range(N(tier, 500, 5000)):
         consistent = g.r.random() < 0.7
         f = g.lohg(consistent=consistent, labels=g.r.choice([1, 2, 3]))
@@ -744,7 +875,7 @@ def C10(g, tier):
 
 
 # --------------------------------------------------------------------------- functors
-def ftable(g, labels=2, elabels=3):
+def ftable(g, labels=3, elabels=3):
     obj = [g.nats(g.r.choice([0, 1, 1, 2, 3]), 2) for _ in range(labels)]
     kind = [g.r.choice([0, 0, 1, 2, 3, 4, 4]) for _ in range(elabels)]
     return [obj, kind, g.r.choice([0, 3])]
@@ -755,20 +886,20 @@ def C12(g, tier):
     Lx = lambda f: ["l", f]
     for _ in range(N(tier, 300, 3000)):
         F = ftable(g)
-        f = g.ohg(maxar=2)
+        f = g.ohg(maxar=2, labels=3)
         nt = any(len(o) != 1 for o in F[0]) and len(f[2][3]) > 0
         bk = g.r.choice(BACKENDS)
         yield sx(["term", bk, ["sfmap_id", S(f)]]), len(f[2][3]) > 0
         yield sx(["term", "vec", ["sfmap", F, S(f)]]), nt
-        lf = g.lohg(maxar=2)
+        lf = g.lohg(maxar=2, labels=3)
         yield sx(["term", "vec", ["lfmap", F, Lx(lf)]]), nt
         yield sx(["term", "vec", ["lfmap_id", Lx(lf)]]), len(lf[2][1]) > 0
         # preservation laws (both sides through the Rust API)
-        f1, h1 = composable(g, maxar=2)
+        f1, h1 = composable(g, maxar=2, labels=3)
         yield sx(["law", "vec", ["sfmap", F, ["scomp", S(f1), S(h1)]], ["scomp", ["sfmap", F, S(f1)], ["sfmap", F, S(h1)]]]), nt
         yield sx(["law", "vec", ["sfmap", F, ["stens", S(f1), S(h1)]], ["stens", ["sfmap", F, S(f1)], ["sfmap", F, S(h1)]]]), nt
         yield sx(["law", "vec", ["sfmap", F, ["sdag", S(f1)]], ["sdag", ["sfmap", F, S(f1)]]]), nt
-        a, b = g.nats(g.size(3), 1), g.nats(g.size(3), 1)
+        a, b = g.nats(g.size(3), 2), g.nats(g.size(3), 2)
         Fa = [x for o in a for x in F[0][o]]
         Fb = [x for o in b for x in F[0][o]]
         yield sx(["law", "vec", ["sfmap", F, ["sid", a]], ["sid", Fa]]), len(a) > 0
@@ -780,7 +911,7 @@ def C13(g, tier):
     Lx = lambda f: ["l", f]
     for _ in range(N(tier, 400, 4000)):
         F = ftable(g)
-        lf = g.lohg(nq=0 if g.r.random() < 0.8 else None, maxar=2)
+        lf = g.lohg(nq=0 if g.r.random() < 0.8 else None, maxar=2, labels=3)
         nt = any(len(o) != 1 for o in F[0]) and len(lf[2][1]) > 0
         yield sx(["term", "vec", ["lfmap_native", F, Lx(lf)]]), nt
         yield sx(["map_arrow_witness", F, lf]), nt
@@ -879,6 +1010,9 @@ def dag_ohg(g, nops, cyclic=False, mult=1):
         produced += tg
         ss.append(srcs)
         tt.append(tg)
+    for srcs in ss:
+        if len(srcs) > 2 and g.r.random() < 0.6:
+            g.r.shuffle(srcs)          # repeated uses of one node need not be adjacent
     if cyclic and nops:
         for _ in range(g.r.randint(1, 2)):
             i = g.r.randrange(nops)
@@ -900,7 +1034,36 @@ def dag_ohg(g, nops, cyclic=False, mult=1):
     return [[g.nats(ni, nodes - 1), nodes], [g.nats(no, nodes - 1), nodes], h]
 
 
+def fanout_ohg(g):
+    """one producer whose outputs are consumed by several operations in interleaved order"""
+    k = g.r.randint(2, 3)
+    cons = g.r.randint(2, 4)
+    nodes = k
+    ss, tt = [[]], [list(range(k))]
+    for _ in range(cons):
+        srcs = [g.r.randrange(k) for _ in range(g.r.randint(1, 3))]
+        co = g.r.randint(0, 1)
+        ss.append(srcs)
+        tt.append(list(range(nodes, nodes + co)))
+        nodes += co
+    # a sink reading produced values
+    ss.append([g.r.randrange(nodes)])
+    tt.append([])
+    order = list(range(len(ss)))
+    if g.r.random() < 0.5:
+        g.r.shuffle(order)
+    ss = [ss[i] for i in order]
+    tt = [tt[i] for i in order]
+    mk = lambda ll: [[[len(l) for l in ll], sum(len(l) for l in ll) + 1], [[v for l in ll for v in l], nodes]]
+    return [[[], nodes], [[], nodes], [mk(ss), mk(tt), [0] * nodes, g.nats(len(ss), 3)]]
+
+
 def C15(g, tier):
+    for _ in range(N(tier, 300, 3000)):
+        f = fanout_ohg(g)
+        for bk in BACKENDS:
+            yield sx(["layer", bk, f]), True
+            yield sx(["layered_operations", bk, f]), True
     for _ in range(N(tier, 500, 5000)):
         k = g.r.random()
         if k < 0.4:
@@ -1061,6 +1224,22 @@ def C18(g, tier):
             src2 = [src[0], src[1], src[2], lab]
         m2 = [src2, hgt, w2, x2]
         yield sx(["arrow_new", m2]), True
+        # an edge whose ordered source / target list is a non-trivial permutation of its image's
+        for side in (0, 1):
+            szs = src[side][0][0]
+            vals = list(src[side][1][0])
+            offs = [sum(szs[:i]) for i in range(len(szs))]
+            cands = [i for i in range(len(szs)) if len(set(vals[offs[i]:offs[i] + szs[i]])) >= 2]
+            if cands:
+                i = g.r.choice(cands)
+                seg = vals[offs[i]:offs[i] + szs[i]]
+                perm = list(seg)
+                while perm == seg:
+                    g.r.shuffle(perm)
+                vals[offs[i]:offs[i] + szs[i]] = perm
+                src4 = list(src)
+                src4[side] = [src[side][0], [vals, src[side][1][1]]]
+                yield sx(["arrow_new", [src4, hgt, w, x]]), True
         # same flattened incidence, different segmentation: move one entry to the neighbouring edge
         for side in (0, 1):
             sz = list(src[side][0][0])
